@@ -542,18 +542,14 @@ Definition wit_entities {E : Type} (base_name : str -> str) (entities : list (st
 Definition wit_entities_unsorted {E : Type} (base_name : str -> str) (entities : list (str * E)) : list (str * E) :=
   sorted_entries (build_map str_eqb base_name (fun _ e => e) entities).
 
-(* dtone: the first currency (in key order) for which a product matches *)
-Definition dtone_pick {A P : Type} (matching : str -> A -> option P) (amounts : list (str * A)) : option (str * P) :=
-  match first_match (fun kv => match matching (fst kv) (snd kv) with Some _ => true | None => false end)
-                    (fun kv => kv) (sorted_entries amounts) with
-  | Some kv => match matching (fst kv) (snd kv) with Some p => Some (fst kv, p) | None => None end
-  | None => None
-  end.
+(* dtone: `for currency in sorted keys { for p in products { if match { product = p; break } } }`: the break only
+   leaves the inner loop, so the LAST currency (in key order) for which a product matches is kept *)
+Definition dtone_step {A P : Type} (matching : str -> A -> option P) (acc : option (str * P)) (kv : str * A) : option (str * P) :=
+  match matching (fst kv) (snd kv) with Some p => Some (fst kv, p) | None => acc end.
 
-(* dtone before the fix: the first currency in visiting order *)
+Definition dtone_pick {A P : Type} (matching : str -> A -> option P) (amounts : list (str * A)) : option (str * P) :=
+  fold_left (dtone_step matching) (sorted_entries amounts) None.
+
+(* dtone before the fix: the last matching currency in visiting order *)
 Definition dtone_pick_unsorted {A P : Type} (matching : str -> A -> option P) (amounts : list (str * A)) : option (str * P) :=
-  match first_match (fun kv => match matching (fst kv) (snd kv) with Some _ => true | None => false end)
-                    (fun kv => kv) amounts with
-  | Some kv => match matching (fst kv) (snd kv) with Some p => Some (fst kv, p) | None => None end
-  | None => None
-  end.
+  fold_left (dtone_step matching) amounts None.
